@@ -37,12 +37,12 @@ def _s(x):
         return x[:1500]
 
 
-def tlc_access(consts, invariants, properties=(), view="AView", emit_file=None, timeout=1800):
+def tlc_access(consts, invariants, properties=(), view="AView", emit_file=None, timeout=1800, simulate=None, depth=None, seed=None):
     d = c.sub("cfg")
     cfg = os.path.join(d, "acc_%d.cfg" % random.randrange(1 << 30))
     c.write_cfg(cfg, "MASpec", consts, invariants, properties, view=view)
-    r = c.run_tlc("MC_Access", cfg, timeout=timeout, out_file=emit_file)
-    if not r.ok:
+    r = c.run_tlc("MC_Access", cfg, timeout=timeout, out_file=emit_file, simulate=simulate, depth=depth, seed=seed, workers=1 if simulate else None)
+    if not r.ok and not simulate:
         c.tlc_must_pass(r, "MC_Access")
     return r
 
@@ -60,10 +60,13 @@ def c10(tier, seed, replay_path=None):
                        ["AdminAlways", "RevokedNeverValid", "NeverIssuedNotValid"], ["RevocationIsForEver", "OthersUnaffected", "RejectedChangesNothing"])]
     d = c.sub("gen")
     aggs, gen = [], {}
-    plan = [("a", 2, 5, 12000)] if tier == "quick" else [("a", 2, 5, None), ("b", 2, 6, 150000), ("c", 3, 5, 100000)]
-    for tag, mt, ms, sample in plan:
+    # (tag, MaxTokens, MaxSteps, sample, simulated behaviours): exhaustive paths for short sequences, TLC simulation for long ones
+    plan = [("a", 2, 4, 9000, None), ("s", 2, 7, 3000, 1500)] if tier == "quick" else \
+        [("a", 2, 4, None, None), ("b", 2, 5, 150000, None), ("s", 3, 9, 40000, 20000)]
+    for tag, mt, ms, sample, sim in plan:
         raw = os.path.join(d, "C10%s.out" % tag)
-        r = tlc_access({"MaxTokens": mt, "MaxSteps": ms, "Emit": '"paths"'}, ["EmitInv"], view=None, emit_file=raw)
+        r = tlc_access({"MaxTokens": mt, "MaxSteps": ms, "Emit": '"paths"'}, ["EmitInv"], view=None, emit_file=raw,
+                       simulate=("num=%d" % sim) if sim else None, depth=ms + 1 if sim else None, seed=seed if sim else None)
         runs.append(r)
         out = os.path.join(d, "C10%s.jsonl" % tag)
         n = c.unquote_lines(raw, out)
@@ -89,11 +92,12 @@ def c10(tier, seed, replay_path=None):
     from checks_chain import merge
     agg = merge(aggs)
     st = agg["stats"]
-    if st.get("op:create", 0) == 0 or st.get("op:revoke", 0) == 0 or st.get("op:restart", 0) == 0:
+    if st.get("op:create", 0) == 0 or st.get("op:revoke", 0) == 0 or st.get("op:restart", 0) == 0 or st.get("op:rotate", 0) == 0:
         raise c.Infra("vacuous run: %s" % dict(st))
     return simple_verdict("C10", agg, runs, {"generation": gen, "exhaustive": tier != "quick",
-                                             "rule": "every sequence of create(as admin|user|unknown) / revoke(as admin|user, any token incl. unknown, admin, already revoked) / restart "
-                                                     "of the given length from Access.tla; after EVERY step EVERY token (admin, issued, revoked, never issued) is presented on two routes"})
+                                             "rule": "every sequence of create(as admin|former or future admin|user|unknown|admin-prefix) / revoke(as admin|user|admin+suffix, any token incl. unknown, admin, "
+                                                     "already revoked) / restart / rotation of the configured admin token, of the given length from Access.tla (simulated beyond); after EVERY step "
+                                                     "EVERY token (both admin tokens, issued, revoked, never issued, a proper prefix and an extension of the admin token) is presented on two routes"})
 
 
 def c09(tier, seed, replay_path=None):
